@@ -58,21 +58,11 @@ def dec(key_bytes,block):
         B=sbox(SBI[i%8],LTinv(B))
         B=[B[t]^K[i][t] for t in range(4)]
     return unwords(B)
-if __name__=='__main__':
+def selftest():
+    """NESSIE Serpent vectors (256-bit keys set 1 v0/v1, set 3 v17; 128-bit key set 1 v0)"""
     h=bytes.fromhex
-    assert enc(h('80'+'00'*31),h('00'*16)).hex().upper()=='A223AA1288463C0E2BE38EBD825616C0'
-    assert enc(h('40'+'00'*31),h('00'*16)).hex().upper()=='EAE1D405570174DF7DF2F9966D509159'
-    assert enc(h('11'*32),h('11'*16)).hex().upper()=='A482EAA5D5771F2FDB2EA1A5F141B9E2'
-    print('256 ok')
-    print('128-bit NESSIE set1 v0 recalled 264E5481EFF42A4606ABDA06C0BFDA3D, got', enc(h('80'+'00'*15),h('00'*16)).hex().upper())
-    assert dec(h('11'*32),enc(h('11'*32),h('11'*16)))==h('11'*16)
-    import sys
-    from crysp.serpent import Serpent
-    bad=0
-    for kl in range(1,33):
-        for pat in (0,1,2):
-            k=bytes(((i*29+pat*101+kl)&255) for i in range(kl)) if pat else bytes([0x80]+[0]*(kl-1))
-            b=bytes(((i*13+pat)&255) for i in range(16))
-            S=Serpent(k)
-            if S.enc(b)!=enc(k,b) or S.dec(b)!=dec(k,b): bad+=1; print('MISMATCH',kl,pat)
-    print('lib vs ref key lengths 1..32: mismatches',bad)
+    kat=[('80'+'00'*31,'00'*16,'A223AA1288463C0E2BE38EBD825616C0'),('40'+'00'*31,'00'*16,'EAE1D405570174DF7DF2F9966D509159'),
+         ('11'*32,'11'*16,'A482EAA5D5771F2FDB2EA1A5F141B9E2'),('80'+'00'*15,'00'*16,'264E5481EFF42A4606ABDA06C0BFDA3D')]
+    for k,p,c in kat:
+        if enc(h(k),h(p)).hex().upper()!=c or dec(h(k),h(c))!=h(p): raise AssertionError(('serpent ref KAT',k))
+    return len(kat)
